@@ -1,1 +1,612 @@
-"""Registry entries (see x_registry)."""
+"""Registry entries: decomposition functions and their class wrappers."""
+import numpy as np
+from hypothesis import strategies as st
+
+import tensorly as tl
+import tensorly.decomposition as D
+from tensorly.decomposition import _tucker as _TK
+from tensorly.cp_tensor import CPTensor
+from tensorly.tucker_tensor import TuckerTensor
+from tensorly.parafac2_tensor import Parafac2Tensor
+
+from . import gen
+from .x_registry import register, Call, CPLX, REAL, enc, mask_spec, small_shape, container
+from .x_reg_tenalg import cp_arg
+from .x_reg_solvers import CONSTRAINTS, constraint_arg
+
+seeds = gen.seeds
+SVDS = st.sampled_from(["truncated_svd", "truncated_svd", "symeig_svd", "randomized_svd"])
+
+
+def fixed_modes_st(order, allow_last=True):
+    hi = order - 1 if allow_last else order - 2
+    return st.one_of(st.none(), st.none(), st.lists(st.integers(0, max(hi, 0)), unique=True, max_size=order))
+
+
+def _fm(v):
+    return None if v is None else list(v)
+
+
+# ============================================================================
+# CP family
+# ============================================================================
+@st.composite
+def s_cp_common(draw, nn=False, max_order=3):
+    shape = draw(small_shape(2, max_order, 2, 4, 48))
+    rank = draw(st.integers(1, 3))
+    kind = "uniform" if nn else "normal"
+    init = draw(st.sampled_from(["svd", "random", "tuple", "list", "cpt"]))
+    c = {"X": draw(enc(shape, "nonneg" if nn else draw(st.sampled_from(["normal", "normal", "lowrank"])))) if not nn else draw(enc(shape, "nonneg")),
+         "rank": rank, "init": init, "n_iter_max": draw(st.integers(1, 3)), "rs": draw(seeds),
+         "tol": draw(st.sampled_from([1e-8, 1e-8, 1e-3, 0])), "normalize_factors": draw(st.booleans()),
+         "fixed_modes": draw(fixed_modes_st(len(shape))), "bad": draw(st.integers(0, 5)) == 0,
+         "return_errors": draw(st.booleans())}
+    if c["X"].get("k") == "lowrank":
+        c["X"] = {"s": shape, "lowrank": rank, "seed": c["X"]["seed"], "nonneg": False}
+    if init in ("tuple", "list", "cpt"):
+        c["init_cp"] = draw(gen.cp_factors(shape, rank, kinds=(kind,), weights=("none", "ones", "pos")))
+    if c["bad"]:
+        c["n_iter_max"] = draw(st.integers(2, 3))
+        c["tol"] = 1e-8
+    return c
+
+
+def _cp_init(e, ctx):
+    if e["init"] in ("svd", "random"):
+        return e["init"]
+    w = ctx.R(e["init_cp"]["weights"])
+    return cp_arg(e["init"], w, [ctx.A(f) for f in e["init_cp"]["factors"]])
+
+
+@st.composite
+def s_parafac(draw):
+    c = draw(s_cp_common())
+    c["mask"] = draw(mask_spec())
+    c["svd"] = draw(SVDS)
+    c["orthogonalise"] = draw(st.sampled_from([False, False, True, 1]))
+    c["sparsity"] = draw(st.sampled_from([None, None, None, 0.2, 3]))
+    c["l2_reg"] = draw(st.sampled_from([0, 0, 0.1]))
+    c["linesearch"] = draw(st.integers(0, 5)) == 0
+    if c["linesearch"]:
+        c["n_iter_max"] = draw(st.integers(7, 9))
+    return c
+
+
+def b_parafac(e, ctx):
+    X = ctx.A(e["X"])
+    cplx = ctx.dtype.kind == "c"
+    kw = dict(tensor=X, rank=e["rank"], n_iter_max=e["n_iter_max"], init=_cp_init(e, ctx), svd=e["svd"],
+              normalize_factors=e["normalize_factors"], orthogonalise=e["orthogonalise"], tol=e["tol"], random_state=e["rs"],
+              return_errors=e["return_errors"], sparsity=None if cplx else e["sparsity"], l2_reg=e["l2_reg"],
+              mask=None if cplx else ctx.mask(e["mask"], X.shape), cvg_criterion="bad" if e["bad"] else "abs_rec_error",
+              fixed_modes=_fm(e["fixed_modes"]), svd_mask_repeats=2, linesearch=e["linesearch"])
+    return Call(D.parafac, kw, expect_exc=e["bad"])
+
+
+def _cp_real_ok(p):
+    return False
+
+
+register("parafac", s_parafac(), b_parafac, dtypes=CPLX, flags=("cvg",), quick=120)
+
+
+@st.composite
+def s_rparafac(draw):
+    c = draw(s_cp_common())
+    c["n_samples"] = draw(st.integers(3, 8))
+    c["svd"] = draw(SVDS)
+    c["max_stagnation"] = draw(st.sampled_from([20, 0, 1]))
+    return c
+
+
+def b_rparafac(e, ctx):
+    kw = dict(tensor=ctx.A(e["X"]), rank=e["rank"], n_samples=e["n_samples"], n_iter_max=e["n_iter_max"], init=_cp_init(e, ctx),
+              svd=e["svd"], tol=e["tol"], max_stagnation=e["max_stagnation"], return_errors=e["return_errors"],
+              random_state=e["rs"], verbose=0)
+    return Call(D.randomised_parafac, kw)
+
+
+register("randomised_parafac", s_rparafac(), b_rparafac, quick=100)
+
+
+@st.composite
+def s_nn_parafac(draw):
+    c = draw(s_cp_common(nn=True))
+    c["mask"] = draw(mask_spec())
+    c["svd"] = draw(SVDS)
+    return c
+
+
+def b_nn_parafac(e, ctx):
+    X = ctx.A(e["X"])
+    kw = dict(tensor=X, rank=e["rank"], n_iter_max=e["n_iter_max"], init=_cp_init(e, ctx), svd=e["svd"], tol=e["tol"],
+              random_state=e["rs"], normalize_factors=e["normalize_factors"], return_errors=e["return_errors"],
+              mask=ctx.mask(e["mask"], X.shape), cvg_criterion="bad" if e["bad"] else "rec_error", fixed_modes=_fm(e["fixed_modes"]))
+    return Call(D.non_negative_parafac, kw, expect_exc=e["bad"])
+
+
+register("non_negative_parafac", s_nn_parafac(), b_nn_parafac, flags=("cvg",), quick=100)
+
+
+@st.composite
+def s_nn_hals(draw):
+    c = draw(s_cp_common(nn=True))
+    n = len(c["X"]["s"])
+    c["svd"] = draw(SVDS)
+    c["sparsity_coefficients"] = draw(st.one_of(st.none(), st.just(0.1), st.lists(st.sampled_from([None, 0.1, 0.5]), min_size=n, max_size=n)))
+    c["nn_modes"] = draw(st.one_of(st.just("all"), st.none(), st.lists(st.integers(0, n - 1), unique=True, min_size=1, max_size=n)))
+    return c
+
+
+def b_nn_hals(e, ctx):
+    sc = e["sparsity_coefficients"]
+    kw = dict(tensor=ctx.A(e["X"]), rank=e["rank"], n_iter_max=e["n_iter_max"], init=_cp_init(e, ctx), svd=e["svd"], tol=e["tol"],
+              random_state=e["rs"], sparsity_coefficients=list(sc) if isinstance(sc, list) else sc, fixed_modes=_fm(e["fixed_modes"]),
+              nn_modes=list(e["nn_modes"]) if isinstance(e["nn_modes"], list) else e["nn_modes"], exact=False,
+              normalize_factors=e["normalize_factors"], return_errors=e["return_errors"],
+              cvg_criterion="bad" if e["bad"] else "abs_rec_error")
+    return Call(D.non_negative_parafac_hals, kw, expect_exc=e["bad"])
+
+
+register("non_negative_parafac_hals", s_nn_hals(), b_nn_hals, flags=("cvg",), quick=100)
+
+
+@st.composite
+def s_constrained(draw):
+    c = draw(s_cp_common(nn=False))
+    n = len(c["X"]["s"])
+    c["svd"] = draw(SVDS)
+    c["n_iter_max"] = min(c["n_iter_max"], 2) if not c["bad"] else 2
+    c["n_iter_max_inner"] = draw(st.integers(1, 3))
+    name = draw(st.sampled_from(sorted(CONSTRAINTS)))
+    c["constraint"] = name
+    c["param"] = draw(CONSTRAINTS[name])
+    c["form"] = draw(st.sampled_from(["scalar", "list", "dict", "partial_list"]))
+    c["cmodes"] = sorted(draw(st.lists(st.integers(0, n - 1), unique=True, min_size=1, max_size=n)))
+    return c
+
+
+def b_constrained(e, ctx):
+    n = len(e["X"]["s"])
+    if e["form"] == "partial_list":
+        carg = [e["param"] if m in e["cmodes"] else None for m in range(n)]
+    else:
+        carg = constraint_arg(e["form"], e["param"], n, e["cmodes"])
+    kw = dict(tensor=ctx.A(e["X"]), rank=e["rank"], n_iter_max=e["n_iter_max"], n_iter_max_inner=e["n_iter_max_inner"],
+              init=_cp_init(e, ctx), svd=e["svd"], tol_outer=e["tol"] or 1e-8, random_state=e["rs"], return_errors=e["return_errors"],
+              cvg_criterion="bad" if e["bad"] else "abs_rec_error", fixed_modes=_fm(e["fixed_modes"]))
+    kw[e["constraint"]] = carg
+    return Call(D.constrained_parafac, kw, expect_exc=e["bad"])
+
+
+register("constrained_parafac", s_constrained(), b_constrained, flags=("cvg",), quick=100)
+
+
+# ============================================================================
+# Tucker family
+# ============================================================================
+@st.composite
+def s_tucker_common(draw, nn=False):
+    shape = draw(small_shape(2, 3, 2, 4, 48))
+    n = len(shape)
+    ranks = [draw(st.integers(1, min(s, 3))) for s in shape]
+    kind = "uniform" if nn else "normal"
+    init = draw(st.sampled_from(["svd", "random", "tuple", "list", "tkt"]))
+    c = {"X": draw(enc(shape, "nonneg" if nn else "normal")), "rank": ranks, "rankform": draw(st.sampled_from(["list", "list", "tuple"])),
+         "init": init, "n_iter_max": draw(st.integers(1, 3)), "tol": draw(st.sampled_from([1e-4, 0, 1e-1])), "rs": draw(seeds),
+         "return_errors": draw(st.booleans())}
+    if init in ("tuple", "list", "tkt"):
+        c["init_tk"] = draw(gen.tucker_factors(shape, ranks, kinds=(kind,)))
+    return c
+
+
+def tucker_arg(kind, core, facs):
+    if kind == "tkt":
+        return TuckerTensor((core, list(facs)))
+    return container(kind, [core, list(facs)])
+
+
+def _tk_init(e, ctx, sub=None):
+    if e["init"] in ("svd", "random"):
+        return e["init"]
+    facs = [ctx.A(f) for f in e["init_tk"]["factors"]]
+    return tucker_arg(e["init"], ctx.A(e["init_tk"]["core"]), facs)
+
+
+def _rank(e):
+    return container(e["rankform"], e["rank"])
+
+
+@st.composite
+def s_tucker(draw):
+    c = draw(s_tucker_common())
+    n = len(c["rank"])
+    c["mask"] = draw(mask_spec())
+    c["svd"] = draw(SVDS)
+    c["fixed_factors"] = None
+    if c["init"] in ("tuple", "list", "tkt") and draw(st.booleans()):
+        c["fixed_factors"] = draw(st.lists(st.integers(0, n - 1), unique=True, min_size=1, max_size=n))
+    return c
+
+
+def b_tucker(e, ctx):
+    X = ctx.A(e["X"])
+    ff = _fm(e["fixed_factors"])
+    kw = dict(tensor=X, rank=_rank(e), fixed_factors=ff, n_iter_max=e["n_iter_max"], init=_tk_init(e, ctx),
+              return_errors=e["return_errors"], svd=e["svd"], tol=e["tol"], random_state=e["rs"], mask=ctx.mask(e["mask"], X.shape))
+    return Call(D.tucker, kw)
+
+
+register("tucker", s_tucker(), b_tucker, quick=100)
+
+
+@st.composite
+def s_partial_tucker(draw):
+    c = draw(s_tucker_common())
+    n = len(c["rank"])
+    c["modes"] = sorted(draw(st.lists(st.integers(0, n - 1), unique=True, min_size=1, max_size=n)))
+    c["mask"] = draw(mask_spec())
+    c["svd"] = draw(SVDS)
+    if c["init"] in ("tuple", "list", "tkt"):
+        # partial init: core keeps the full size on the untouched modes
+        shape = c["X"]["s"]
+        cshape = [c["rank"][i] if i in c["modes"] else shape[i] for i in range(n)]
+        c["init_tk"] = {"core": draw(enc(cshape)), "factors": [draw(enc([shape[m], c["rank"][m]])) for m in c["modes"]]}
+        c["init"] = "tuple" if c["init"] == "tkt" else c["init"]
+    return c
+
+
+def b_partial_tucker(e, ctx):
+    X = ctx.A(e["X"])
+    kw = dict(tensor=X, rank=container(e["rankform"], [e["rank"][m] for m in e["modes"]]), modes=list(e["modes"]),
+              n_iter_max=e["n_iter_max"], init=_tk_init(e, ctx), tol=e["tol"], svd=e["svd"], random_state=e["rs"],
+              mask=ctx.mask(e["mask"], X.shape), svd_mask_repeats=2)
+    return Call(D.partial_tucker, kw)
+
+
+register("partial_tucker", s_partial_tucker(), b_partial_tucker, quick=100)
+
+
+@st.composite
+def s_nn_tucker(draw):
+    c = draw(s_tucker_common(nn=True))
+    c["normalize_factors"] = draw(st.booleans())
+    return c
+
+
+def b_nn_tucker(e, ctx):
+    kw = dict(tensor=ctx.A(e["X"]), rank=_rank(e), n_iter_max=e["n_iter_max"], init=_tk_init(e, ctx), tol=e["tol"] or 1e-4,
+              random_state=e["rs"], return_errors=e["return_errors"], normalize_factors=e["normalize_factors"])
+    return Call(D.non_negative_tucker, kw)
+
+
+register("non_negative_tucker", s_nn_tucker(), b_nn_tucker, quick=100)
+
+
+@st.composite
+def s_nn_tucker_hals(draw):
+    c = draw(s_tucker_common(nn=True))
+    n = len(c["rank"])
+    c["normalize_factors"] = draw(st.booleans())
+    c["svd"] = draw(SVDS)
+    c["n_iter_max"] = draw(st.integers(1, 2))
+    c["sparsity_coefficients"] = draw(st.one_of(st.none(), st.just(0.1), st.lists(st.sampled_from([None, 0.1, 0.5]), min_size=n, max_size=n)))
+    c["core_sparsity_coefficient"] = draw(st.sampled_from([None, 0.1]))
+    c["algorithm"] = draw(st.sampled_from(["fista", "active_set"]))
+    # fixed modes only make sense with a user init (the initialiser builds factors for the free modes only)
+    c["fixed_modes"] = draw(fixed_modes_st(n)) if c["init"] in ("tuple", "list", "tkt") else None
+    return c
+
+
+def b_nn_tucker_hals(e, ctx):
+    sc = e["sparsity_coefficients"]
+    kw = dict(tensor=ctx.A(e["X"]), rank=_rank(e), n_iter_max=e["n_iter_max"], init=_tk_init(e, ctx), svd=e["svd"], tol=e["tol"],
+              sparsity_coefficients=list(sc) if isinstance(sc, list) else sc, core_sparsity_coefficient=e["core_sparsity_coefficient"],
+              fixed_modes=_fm(e["fixed_modes"]), random_state=e["rs"], normalize_factors=e["normalize_factors"],
+              return_errors=e["return_errors"], exact=False, algorithm=e["algorithm"])
+    return Call(D.non_negative_tucker_hals, kw)
+
+
+register("non_negative_tucker_hals", s_nn_tucker_hals(), b_nn_tucker_hals, quick=80)
+
+
+# ============================================================================
+# TT / TT-matrix / TR
+# ============================================================================
+@st.composite
+def s_tt(draw):
+    shape = draw(small_shape(2, 4, 2, 4, 64))
+    n = len(shape)
+    form = draw(st.sampled_from(["int", "list", "tuple"]))
+    rank = draw(st.integers(1, 3)) if form == "int" else [1] + [draw(st.integers(1, 3)) for _ in range(n - 1)] + [1]
+    return {"X": draw(enc(shape)), "rank": rank, "form": form, "svd": draw(SVDS)}
+
+
+def b_tt(e, ctx):
+    rank = e["rank"] if e["form"] == "int" else container(e["form"], e["rank"])
+    return Call(D.tensor_train, dict(input_tensor=ctx.A(e["X"]), rank=rank, svd=e["svd"]))
+
+
+register("tensor_train", s_tt(), b_tt, quick=120)
+
+
+@st.composite
+def s_ttm(draw):
+    n = draw(st.integers(1, 2))
+    shape = [draw(st.integers(1, 3)) for _ in range(2 * n)]
+    form = draw(st.sampled_from(["int", "list"]))
+    rank = draw(st.integers(1, 3)) if form == "int" else [1] + [draw(st.integers(1, 3)) for _ in range(n - 1)] + [1]
+    return {"X": draw(enc(shape)), "rank": rank, "form": form, "svd": draw(SVDS)}
+
+
+def b_ttm(e, ctx):
+    rank = e["rank"] if e["form"] == "int" else list(e["rank"])
+    return Call(D.tensor_train_matrix, dict(tensor=ctx.A(e["X"]), rank=rank, svd=e["svd"]))
+
+
+register("tensor_train_matrix", s_ttm(), b_ttm, quick=120)
+
+
+@st.composite
+def s_tr(draw):
+    shape = draw(small_shape(3, 4, 2, 4, 64))
+    n = len(shape)
+    mode = draw(st.integers(0, n - 1))
+    form = draw(st.sampled_from(["int", "list", "tuple"]))
+    if form == "int":
+        rank = draw(st.integers(1, 2))
+        rl = [rank] * (n + 1)
+    else:
+        rl = [draw(st.integers(1, 2)) for _ in range(n)]
+        rl = rl + [rl[0]]
+        rank = rl
+    rest = gen.prod(shape) // shape[mode]
+    if rl[mode] * rl[mode + 1] > min(shape[mode], rest):
+        mode = max(range(n), key=lambda i: shape[i])
+        if rl[mode] * rl[mode + 1] > min(shape[mode], gen.prod(shape) // shape[mode]):
+            rank, form = 1, "int"
+    return {"X": draw(enc(shape)), "rank": rank, "form": form, "mode": mode, "svd": draw(SVDS)}
+
+
+def b_tr(e, ctx):
+    rank = e["rank"] if e["form"] == "int" else container(e["form"], e["rank"])
+    return Call(D.tensor_ring, dict(input_tensor=ctx.A(e["X"]), rank=rank, mode=e["mode"], svd=e["svd"]))
+
+
+register("tensor_ring", s_tr(), b_tr, quick=120)
+
+
+@st.composite
+def s_tr_als(draw, sampled=False):
+    shape = draw(small_shape(3, 3, 2, 4, 48))
+    n = len(shape)
+    form = draw(st.sampled_from(["int", "list"]))
+    if form == "int":
+        rank = draw(st.integers(1, 2))
+    else:
+        rank = [draw(st.integers(1, 2)) for _ in range(n)]
+        rank = rank + [rank[0]]
+    c = {"X": draw(enc(shape)), "rank": rank, "form": form, "n_iter_max": draw(st.integers(1, 3)),
+         "tol": draw(st.sampled_from([1e-6, 0.0])), "rs": draw(seeds)}
+    if sampled:
+        c["n_samples"] = draw(st.one_of(st.integers(4, 8), st.lists(st.integers(4, 8), min_size=n, max_size=n)))
+        c["uniform_sampling"] = draw(st.booleans())
+        c["randomized_error"] = draw(st.booleans())
+    else:
+        c["ls_solve"] = draw(st.sampled_from(["lstsq", "normal_eq"]))
+    return c
+
+
+def b_tr_als(e, ctx):
+    rank = e["rank"] if e["form"] == "int" else list(e["rank"])
+    return Call(D.tensor_ring_als, dict(tensor=ctx.A(e["X"]), rank=rank, ls_solve=e["ls_solve"], n_iter_max=e["n_iter_max"], tol=e["tol"],
+                                        random_state=e["rs"]))
+
+
+def b_tr_als_sampled(e, ctx):
+    rank = e["rank"] if e["form"] == "int" else list(e["rank"])
+    ns = list(e["n_samples"]) if isinstance(e["n_samples"], list) else e["n_samples"]
+    return Call(D.tensor_ring_als_sampled, dict(tensor=ctx.A(e["X"]), rank=rank, n_samples=ns, n_iter_max=e["n_iter_max"], tol=e["tol"],
+                                                uniform_sampling=e["uniform_sampling"], randomized_error=e["randomized_error"],
+                                                random_state=e["rs"]))
+
+
+register("tensor_ring_als", s_tr_als(), b_tr_als, quick=80)
+register("tensor_ring_als_sampled", s_tr_als(sampled=True), b_tr_als_sampled, quick=80)
+
+
+# ============================================================================
+# PARAFAC2, CMTF, robust PCA, power iterations
+# ============================================================================
+@st.composite
+def s_parafac2(draw):
+    K = draw(st.integers(2, 4))
+    rank = draw(st.integers(1, min(K, 3)))
+    I = draw(st.integers(2, 3))
+    form = draw(st.sampled_from(["list", "tuple", "array"]))
+    if form == "array":
+        J = draw(st.integers(rank, 4))
+        rows = [J] * I
+    else:
+        rows = [draw(st.integers(rank, 4)) for _ in range(I)]
+    init = draw(st.sampled_from(["random", "svd", "p2tuple", "p2t", "cptuple"]))
+    c = {"rows": rows, "K": K, "rank": rank, "form": form, "seed": draw(seeds), "init": init,
+         "n_iter_max": draw(st.integers(1, 3)), "n_iter_parafac": draw(st.integers(1, 2)), "rs": draw(seeds),
+         "nn_modes": draw(st.sampled_from([None, None, "all", [0], [0, 2], [2]])), "normalize_factors": draw(st.booleans()),
+         "tol": draw(st.sampled_from([1e-8, 0])), "return_errors": draw(st.booleans()), "svd": draw(SVDS),
+         "linesearch": draw(st.integers(0, 6)) == 0}
+    if c["linesearch"]:
+        c["n_iter_max"] = 8
+        c["tol"] = 1e-8
+    if init != "random" and init != "svd":
+        c["iseed"] = draw(seeds)
+        c["iweights"] = draw(st.sampled_from(["none", "ones", "pos"]))
+    return c
+
+
+def p2_parts(seed, I, rows, K, rank, ctx, wkind="none", nonneg=False, Bshape=None):
+    rs = np.random.RandomState(int(seed) % (2 ** 32))
+    f = (lambda a: np.abs(a) + 0.1) if nonneg else (lambda a: a)
+    A = ctx.W(f(rs.standard_normal((I, rank))))
+    B = ctx.W(f(rs.standard_normal(Bshape or (rank, rank))))
+    C = ctx.W(f(rs.standard_normal((K, rank))))
+    projs = [ctx.W(gen.orthonormal(rs.randint(0, 2 ** 31 - 1), r, rank)) for r in rows]
+    w = None if wkind == "none" else ctx.W(np.ones(rank) if wkind == "ones" else rs.uniform(0.5, 2.0, rank))
+    return w, [A, B, C], projs
+
+
+def _slices(e, ctx, nonneg=False):
+    rs = np.random.RandomState(int(e["seed"]) % (2 ** 32))
+    sl = [rs.standard_normal((r, e["K"])) for r in e["rows"]]
+    if nonneg:
+        sl = [np.abs(s) for s in sl]
+    if e["form"] == "array":
+        return ctx.W(np.stack(sl))
+    return container(e["form"], [ctx.W(s) for s in sl])
+
+
+def b_parafac2(e, ctx):
+    nn = e["nn_modes"] is not None
+    X = _slices(e, ctx, nonneg=nn)
+    I = len(e["rows"])
+    init = e["init"]
+    if init in ("p2tuple", "p2t"):
+        w, facs, projs = p2_parts(e["iseed"], I, e["rows"], e["K"], e["rank"], ctx, e["iweights"], nonneg=nn)
+        init = (w, facs, projs) if init == "p2tuple" else Parafac2Tensor((w, facs, projs))
+    elif init == "cptuple":
+        # a CP init: B has one row per slice row (equal row counts needed) -> only for equal rows, else fall back to random
+        if len(set(e["rows"])) == 1:
+            w, facs, _ = p2_parts(e["iseed"], I, e["rows"], e["K"], e["rank"], ctx, e["iweights"], nonneg=nn, Bshape=(e["rows"][0], e["rank"]))
+            init = (w, facs)
+        else:
+            init = "random"
+    kw = dict(tensor_slices=X, rank=e["rank"], n_iter_max=e["n_iter_max"], init=init, svd=e["svd"], normalize_factors=e["normalize_factors"],
+              tol=e["tol"], nn_modes=list(e["nn_modes"]) if isinstance(e["nn_modes"], list) else e["nn_modes"], random_state=e["rs"],
+              return_errors=e["return_errors"], n_iter_parafac=e["n_iter_parafac"], linesearch=e["linesearch"])
+    return Call(D.parafac2, kw)
+
+
+register("parafac2", s_parafac2(), b_parafac2, quick=80)
+
+
+@st.composite
+def s_cmtf(draw):
+    shape = draw(small_shape(3, 3, 2, 4, 48))
+    return {"X": draw(enc(shape)), "Y": draw(enc([shape[0], draw(st.integers(1, 4))])), "rank": draw(st.integers(1, 3)),
+            "init": draw(st.sampled_from(["svd", "random"])), "n_iter_max": draw(st.integers(1, 3)),
+            "normalize_factors": draw(st.booleans()), "tol": draw(st.sampled_from([1e-6, 0.0]))}
+
+
+def b_cmtf(e, ctx):
+    return Call(D.coupled_matrix_tensor_3d_factorization, dict(tensor_3d=ctx.A(e["X"]), matrix=ctx.A(e["Y"]), rank=e["rank"], init=e["init"],
+                                                               n_iter_max=e["n_iter_max"], tol=e["tol"], normalize_factors=e["normalize_factors"]))
+
+
+register("coupled_matrix_tensor_3d_factorization", s_cmtf(), b_cmtf, gseed=True, quick=80)
+
+
+@st.composite
+def s_rpca(draw):
+    shape = draw(small_shape(2, 3, 2, 4, 36))
+    return {"X": draw(enc(shape)), "mask": draw(mask_spec()), "n_iter_max": draw(st.integers(1, 4)),
+            "reg_E": draw(st.sampled_from([1.0, 0.1])), "return_errors": draw(st.booleans())}
+
+
+def b_rpca(e, ctx):
+    X = ctx.A(e["X"])
+    return Call(D.robust_pca, dict(X=X, mask=ctx.mask(e["mask"], X.shape), n_iter_max=e["n_iter_max"], reg_E=e["reg_E"],
+                                   return_errors=e["return_errors"], verbose=0))
+
+
+register("robust_pca", s_rpca(), b_rpca, quick=100)
+
+
+@st.composite
+def s_power(draw, symmetric=False, rank=False):
+    if symmetric:
+        shape = [draw(st.integers(2, 3))] * draw(st.integers(2, 3))
+    else:
+        shape = draw(small_shape(2, 3, 2, 3, 27))
+    c = {"X": draw(enc(shape, "uniform")), "n_repeat": draw(st.integers(1, 2)), "n_iteration": draw(st.integers(1, 3))}
+    if rank:
+        c["rank"] = draw(st.integers(1, 2))
+    return c
+
+
+def _b_power(fn):
+    def b(e, ctx):
+        kw = dict(tensor=ctx.A(e["X"]), n_repeat=e["n_repeat"], n_iteration=e["n_iteration"], verbose=False)
+        if "rank" in e:
+            kw["rank"] = e["rank"]
+        return Call(fn, kw)
+    return b
+
+
+register("power_iteration", s_power(), _b_power(D.power_iteration), gseed=True, quick=100)
+register("parafac_power_iteration", s_power(rank=True), _b_power(D.parafac_power_iteration), gseed=True, quick=100)
+register("symmetric_power_iteration", s_power(symmetric=True), _b_power(D.symmetric_power_iteration), gseed=True, quick=100)
+register("symmetric_parafac_power_iteration", s_power(symmetric=True, rank=True), _b_power(D.symmetric_parafac_power_iteration), gseed=True, quick=100)
+
+
+@st.composite
+def s_sample_kr(draw):
+    n = draw(st.integers(2, 4))
+    r = draw(st.integers(1, 3))
+    rows = [draw(st.integers(1, 4)) for _ in range(n)]
+    skip = draw(st.one_of(st.none(), st.integers(0, n - 1)))
+    ns = draw(st.integers(1, 6))
+    rem = [x for i, x in enumerate(rows) if i != skip]
+    idx = None
+    if draw(st.booleans()):
+        idx = [[draw(st.integers(0, x - 1)) for _ in range(ns)] for x in rem]
+    return {"mats": [draw(enc([x, r])) for x in rows], "skip": skip, "n_samples": ns, "indices": idx,
+            "rows_out": draw(st.booleans()), "rs": draw(seeds), "rskind": draw(st.sampled_from(["int", "RandomState"]))}
+
+
+def b_sample_kr(e, ctx):
+    rs = e["rs"] if e["rskind"] == "int" else np.random.RandomState(e["rs"])
+    idx = None if e["indices"] is None else [np.array(i, dtype=int) for i in e["indices"]]
+    return Call(D.sample_khatri_rao, dict(matrices=[ctx.A(m) for m in e["mats"]], n_samples=e["n_samples"], skip_matrix=e["skip"],
+                                          indices_list=idx, return_sampled_rows=e["rows_out"], random_state=rs))
+
+
+register("sample_khatri_rao", s_sample_kr(), b_sample_kr, quick=120)
+
+
+# ============================================================================
+# class wrappers (same cases as the functions)
+# ============================================================================
+def class_builder(Cls, fb, drop=("return_errors",), tensor_key="tensor", force=None):
+    def b(e, ctx):
+        c = fb(e, ctx)
+        kw = dict(c.kwargs)
+        X = kw.pop(tensor_key)
+        for d in drop:
+            kw.pop(d, None)
+        if force:
+            kw.update(force)
+
+        def fit_transform(ctor, tensor):
+            est = Cls(**ctor)
+            out = est.fit_transform(tensor)
+            return out, {k: v for k, v in vars(est).items() if k.endswith("_")}     # fitted attributes
+        return Call(fit_transform, dict(ctor=kw, tensor=X), expect_exc=c.expect_exc)
+    return b
+
+
+register("CP.fit_transform", s_parafac(), class_builder(D.CP, b_parafac), dtypes=CPLX, flags=("cvg",), quick=60)
+register("RandomizedCP.fit_transform", s_rparafac(), class_builder(D.RandomizedCP, b_rparafac), quick=50)
+register("CP_NN.fit_transform", s_nn_parafac(), class_builder(D.CP_NN, b_nn_parafac), flags=("cvg",), quick=50)
+register("CP_NN_HALS.fit_transform", s_nn_hals(), class_builder(D.CP_NN_HALS, b_nn_hals), flags=("cvg",), quick=50)
+register("ConstrainedCP.fit_transform", s_constrained(), class_builder(D.ConstrainedCP, b_constrained, drop=()), flags=("cvg",), quick=50)
+register("Tucker.fit_transform", s_tucker(), class_builder(D.Tucker, b_tucker, drop=()), quick=50)
+register("Tucker_NN.fit_transform", s_nn_tucker(), class_builder(_TK.Tucker_NN, b_nn_tucker), quick=50)
+register("Tucker_NN_HALS.fit_transform", s_nn_tucker_hals(), class_builder(_TK.Tucker_NN_HALS, b_nn_tucker_hals, drop=()), quick=40)
+register("TensorTrain.fit_transform", s_tt(), class_builder(D.TensorTrain, b_tt, tensor_key="input_tensor"), quick=60)
+register("TensorTrainMatrix.fit_transform", s_ttm(), class_builder(D.TensorTrainMatrix, b_ttm), quick=60)
+register("TensorRing.fit_transform", s_tr(), class_builder(D.TensorRing, b_tr, tensor_key="input_tensor"), quick=60)
+register("TensorRingALS.fit_transform", s_tr_als(), class_builder(D.TensorRingALS, b_tr_als), quick=40)
+register("TensorRingALSSampled.fit_transform", s_tr_als(sampled=True), class_builder(D.TensorRingALSSampled, b_tr_als_sampled), quick=40)
+register("Parafac2.fit_transform", s_parafac2(), class_builder(D.Parafac2, b_parafac2, drop=(), tensor_key="tensor_slices", force={"return_errors": True}), quick=40)
+register("CPPower.fit_transform", s_power(rank=True), class_builder(D.CPPower, _b_power(D.parafac_power_iteration)), gseed=True, quick=50)
+register("SymmetricCP.fit_transform", s_power(symmetric=True, rank=True), class_builder(D.SymmetricCP, _b_power(D.symmetric_parafac_power_iteration)), gseed=True, quick=50)
